@@ -8,6 +8,7 @@ package p9
 import (
 	"fmt"
 	"testing"
+	"time"
 )
 
 // vh04Corpus: fixed boundary histories that run first (each entry: list of requests on connection 0).
@@ -27,6 +28,11 @@ func vh04Corpus() [][]vhsrvReq {
 			{T: "Txattrcreate", N: []uint64{3, 4, 0}, S: vhsrvH("user.b")}, {T: "Twrite", N: []uint64{3, 0, 4}}, {T: "Tread", N: []uint64{3, 0, 4}}, {T: "Tclunk", N: []uint64{3}},
 			{T: "Tunlinkat", N: []uint64{0, 0}, S: vhsrvH("d1")}, {T: "Tlopen", N: []uint64{1, 0}}, w(1, 5, "f1"), {T: "Tgetattr", N: []uint64{2, 1}},
 			{T: "Tclunk", N: []uint64{4}}, {T: "Tclunk", N: []uint64{2}}, {T: "Tclunk", N: []uint64{2}}, {T: "Tremove", N: []uint64{1}}, {T: "Tremove", N: []uint64{1}}},
+		// a Tlopen whose backend Open fails leaves the fid unopened: I/O refused, a second Tlopen goes through
+		{v, at, w(0, 1, "f1"), {T: "Tlopen", N: []uint64{1, 2}, FaultAns: &vhsrvAns{Err: []vhsrvLeaf{{"L", 13}}}}, {T: "Tread", N: []uint64{1, 0, 8}}, {T: "Twrite", N: []uint64{1, 0, 3}},
+			{T: "Tfsync", N: []uint64{1}}, {T: "Tlopen", N: []uint64{1, 0}}, {T: "Tread", N: []uint64{1, 0, 8}},
+			w(0, 2, "d1"), {T: "Tlopen", N: []uint64{2, 0}, FaultAns: &vhsrvAns{Err: []vhsrvLeaf{{"S", 24}}}}, {T: "Treaddir", N: []uint64{2, 0, 64}},
+			{T: "Tmkdir", N: []uint64{2, 0o755, 0}, S: vhsrvH("d3")}, w(2, 2), {T: "Tlopen", N: []uint64{2, 0}}, {T: "Treaddir", N: []uint64{2, 0, 64}}},
 		// no Tversion: Tread panics (nil buffer pool) -> EFAULT
 		{at, w(0, 1, "f1"), {T: "Tlopen", N: []uint64{1, 0}}, {T: "Tread", N: []uint64{1, 0, 4}}, {T: "Tread", N: []uint64{1, 0, 1<<22 + 1}}, {T: "Tread", N: []uint64{9, 0, 4}}},
 		// opened directory refusals
@@ -41,11 +47,16 @@ func vh04Corpus() [][]vhsrvReq {
 	}
 }
 
-func vhsrvRunFixed(reqs []vhsrvReq, seed int64) vhsrvHist {
+func vhsrvRunFixed(reqs []vhsrvReq, seed int64) vhsrvHist { return vhsrvRunFixedOpt(reqs, seed, false) }
+
+// vhsrvRunFixedOpt: wga = the backend answers WalkGetAttr with ENOSYS (Walk + GetAttr fallback).
+func vhsrvRunFixedOpt(reqs []vhsrvReq, seed int64, wga bool) vhsrvHist {
 	r := vhRandSeed(seed)
 	w := vhsrvNewWorld(r, 2)
 	w.b.errProb = 0
 	w.b.weirdProb = 0
+	w.b.wgaEnosys = wga
+	w.timeout = 6 * time.Second
 	h := vhsrvHist{Kind: "hist", Steps: []vhsrvStep{}}
 	defer func() { w.close(); w.finish(&h) }()
 	for _, q := range reqs {
@@ -55,7 +66,16 @@ func vhsrvRunFixed(reqs []vhsrvReq, seed int64) vhsrvHist {
 		if q.S == nil {
 			q.S = []string{}
 		}
+		if q.FaultAns != nil {
+			w.b.mu.Lock()
+			w.b.faultArmed, w.b.faultCall, w.b.faultAns = true, q.FaultCall, *q.FaultAns
+			w.b.mu.Unlock()
+			h.Fault = map[string]int{"step": len(h.Steps), "call": q.FaultCall, "panic": map[bool]int{false: 0, true: 1}[q.FaultAns.Panic]}
+		}
 		st, err := w.do(q)
+		w.b.mu.Lock()
+		w.b.faultArmed = false
+		w.b.mu.Unlock()
 		if err != nil {
 			h.Broken = fmt.Sprintf("%v on request %+v", err, q)
 			return h
@@ -76,7 +96,7 @@ func TestVerifC04(t *testing.T) {
 	}
 	n := 110
 	if vhThorough() {
-		n = 1500
+		n = 600
 	}
 	for i := 0; i < n; i++ {
 		steps := 20 + (i*7)%41
